@@ -61,7 +61,7 @@ def filter_and_sort_qualifiers(qualifiers: Dict[str, List[str]]) -> Optional[Dic
     GFF3 special terms"""
     # gffutils percent-decodes attribute values but not attribute keys
     qualifiers = {
-        unquote(key): sorted(vals) for key, vals in qualifiers.items() if not re.match(BIOCANTOR_QUALIFIERS_REGEX, key)
+        unquote(key): sorted(vals) for key, vals in qualifiers.items() if not re.fullmatch(BIOCANTOR_QUALIFIERS_REGEX, key)
     }
     return qualifiers if qualifiers else None
 
